@@ -14,18 +14,21 @@ theorem C14_unknown_step (S : Schema) (i : Nat) (o : UOpts) (childDec : Nat → 
     (hunk : findField (S.msg i).fields ((wire / 8) % 4294967296) = none)
     (hs : skip rest = .ok n) (hn : n ≤ rest.length) (hd : o.discard = false) :
     implUnmarshalLoop S i o childDec (fuel + 1) m rest =
-      implUnmarshalLoop S i o childDec fuel (Val.msg m.slots (m.unknown ++ rest.take n)) (rest.drop n) := sorry
+      implUnmarshalLoop S i o childDec fuel (Val.msg m.slots (m.unknown ++ rest.take n)) (rest.drop n) :=
+  implUnmarshalLoop_unknown_step S i o childDec fuel m rest wire n r hne hv hwt hnum hunk hs hn hd
 
 /-- No known field ever lands in the unknown set: handling a record of a declared field leaves the
     unknown bytes of that message untouched. -/
 theorem C14_known_never_unknown (S : Schema) (fs : List FieldDesc) (childDec : Nat → Val → Bytes → Res Val)
     (j : Nat) (f : FieldDesc) (wt : Nat) (slots : List Val) (u : Bytes) (rest : Bytes) (m' : Val) (r' : Bytes)
     (h : implKnownField S fs childDec j f wt (Val.msg slots u) rest = .ok (m', r')) :
-    m'.unknown = u := sorry
+    m'.unknown = u :=
+  implKnownField_unknown S fs childDec j f wt slots u rest m' r' h
 
 /-- Re-encoding emits the unknown bytes unchanged after all known fields (reference and generated code). -/
 theorem C14_reencode_unknown_last (S : Schema) (i : Nat) (child : Nat → Val → Bytes) (slots : List Val) (u : Bytes) :
-    specEncodeLvl S i child (Val.msg slots u) = specEncodeLvl S i child (Val.msg slots []) ++ u := sorry
+    specEncodeLvl S i child (Val.msg slots u) = specEncodeLvl S i child (Val.msg slots []) ++ u :=
+  specEncodeLvl_unknown_last S i child slots u
 
 /-- With DiscardUnknown no unknown record survives at any depth and nothing else changes: decoding with
     the option equals decoding without it followed by erasing every unknown set (given a target that
@@ -35,6 +38,43 @@ theorem C14_discard (S : Schema) (fuel : Nat) (depth : Int) (i : Nat) (bs : Byte
       (match implUnmarshalClosure S { discard := false } fuel depth i (emptyMsg S i) bs with
        | .ok v => .ok (eraseUnknown S (v.depth + 1) i v)
        | .err e => .err e
-       | .panic => .panic) := sorry
+       | .panic => .panic) :=
+  implUnmarshalClosure_discard S fuel depth i bs
+
+/-! ### Non-vacuity -/
+
+/-- `message M { int32 a = 1; }` -/
+def c14Schema : Schema := ⟨[⟨[⟨1, .scalar .int32, .singular⟩]⟩]⟩
+
+/-- `a = 5` followed by the unknown record `2: 7` (`08 05 10 07`): accepted, the unknown record is retained
+    byte for byte. -/
+example : implUnmarshal c14Schema {} 0 (emptyMsg c14Schema 0) [0x08, 0x05, 0x10, 0x07] =
+    .ok (.msg [.bits 5] [0x10, 0x07]) :=
+  implUnmarshal_fresh_of_closure (by rfl)
+
+/-- with DiscardUnknown it is dropped, and this is `eraseUnknown` of the retaining run (`C14_discard`). -/
+example : implUnmarshalClosure c14Schema { discard := true } 5 10000 0 (emptyMsg c14Schema 0) [0x08, 0x05, 0x10, 0x07] =
+    .ok (.msg [.bits 5] []) := by rfl
+example : implUnmarshalClosure c14Schema { discard := false } 5 10000 0 (emptyMsg c14Schema 0) [0x08, 0x05, 0x10, 0x07] =
+    .ok (.msg [.bits 5] [0x10, 0x07]) := by rfl
+example : eraseUnknown c14Schema ((Val.msg [.bits 5] [0x10, 0x07]).depth + 1) 0 (.msg [.bits 5] [0x10, 0x07]) =
+    .msg [.bits 5] [] := by rfl
+
+/-- the hypotheses of `C14_unknown_step` are met by the record `10 07` (field 2, not declared). -/
+example (childDec : Nat → Val → Bytes → Res Val) (fuel : Nat) (m : Val) :
+    implUnmarshalLoop c14Schema 0 {} childDec (fuel + 1) m [0x10, 0x07] =
+      implUnmarshalLoop c14Schema 0 {} childDec fuel (Val.msg m.slots (m.unknown ++ [0x10, 0x07])) [] :=
+  C14_unknown_step c14Schema 0 {} childDec fuel m [0x10, 0x07] 16 2 [0x07]
+    (by simp) (by rfl) (by decide) (by decide) (by decide) (by decide) (by decide) rfl
+
+/-- the hypothesis of `C14_known_never_unknown` is met: field 1 handled, unknown bytes `aa` untouched. -/
+example : (Val.msg [.bits 5] [0xaa]).unknown = [0xaa] :=
+  C14_known_never_unknown c14Schema (c14Schema.msg 0).fields (fun _ v _ => .ok v) 0 ⟨1, .scalar .int32, .singular⟩ 0
+    [.bits 0] [0xaa] [0x05] (.msg [.bits 5] [0xaa]) [] (by rfl)
+
+#print axioms C14_unknown_step
+#print axioms C14_known_never_unknown
+#print axioms C14_reencode_unknown_last
+#print axioms C14_discard
 
 end Pulsar
